@@ -266,13 +266,15 @@ fn judge_nesting(ctx: &mut WorkerCtx, n: usize) {
 pub fn worker(ctx: &mut WorkerCtx) {
     let p = plan(ctx.tier);
     let mut idx = 0u64;
+    let mut owned = 0u64;
     // part 1: all strings over the alphabet
     for len in 0..=p.max_len {
         let total = 5u64.pow(len as u32);
         for i in 0..total {
             if ctx.owns(idx) {
                 let s = nth_string(i, len);
-                if i % 64 == 0 {
+                owned += 1;
+                if owned % 64 == 1 {
                     ctx.mark(idx, 1, s.as_bytes());
                 }
                 judge_string(ctx, &p, &s);
